@@ -317,20 +317,25 @@ def _run_request(chk, case):
         if kind in ("code", "code-noid"):
             WACodeRequest("sms", prof).send(preview=True)
         elif kind == "exists":
-            WAExistsRequest(prof).send(preview=True)
+            q = WAExistsRequest(prof)
+            q.send(preview=True)
+            q.send(preview=True)          # the same request object sent again (a retry): a fresh ephemeral key, the same parameters
         else:
-            WARegRequest(prof, "123456").send(preview=True)
+            q = WARegRequest(prof, "123456")
+            q.send(preview=True)
+            q.send(preview=True)
     except Exception as e:
         return [oracle("C20:request-raises", "cc %s national %s, %s request raises %s: %s" % (cc, nat, kind, type(e).__name__, e))]
     finally:
         chk.WAR.sendRequest, chk.WAR.ENC_PUBKEY, chk.WAR.__init__ = real_send, real_key, real_init
     chk.hit("request:%s:sent=%d" % (kind, len(sent)))
-    if len(sent) != len(reqs) or not sent:
+    twice = kind in ("exists", "reg")
+    if len(sent) != len(reqs) * (2 if twice else 1) or not sent:
         return [oracle("C20:request-not-sent", "cc %s national %s, %s: %d request objects, %d requests handed to the transport" % (cc, nat, kind, len(reqs), len(sent)))]
     data = chk.sig + chk.cls + nat.encode()
     token = base64.b64encode(stdhmac.new(chk.key[:64], data, hashlib.sha1).digest())
     by_path = dict(("/" + q.url.split("/", 1)[1], q) for q in reqs)
-    if sorted(by_path) != sorted(p_ for _h, p_, _p, _e in sent):
+    if sorted(by_path) != sorted(set(p_ for _h, p_, _p, _e in sent)):
         return [oracle("C20:request-not-sent", "cc %s national %s, %s: requests built for %s, the transport saw %s" % (cc, nat, kind, sorted(by_path), [p_ for _h, p_, _p, _e in sent]))]
     for host, path, params, _enc in sent:
         req = by_path[path]
@@ -364,6 +369,10 @@ def _run_request(chk, case):
             if d.get(b"token") != [token]:
                 fails.append(oracle("C20:request-token", "%s: the request's token is %r, the independent keyed SHA-1 of the national number is %r"
                                     % (what, d.get(b"token"), token)))
+    if twice and not fails:
+        ephs = [base64.b64decode(p_[0][1])[:32] for _h, _pa, p_, _e in sent]
+        if len(set(ephs)) != len(ephs):
+            fails.append(oracle("C20:ephemeral-key-reused", "cc %s national %s, %s request sent twice: both blobs carry the same ephemeral public key" % (cc, nat, kind)))
     return fails
 
 
